@@ -67,6 +67,8 @@ type Provider struct {
 	NextGetErr    error
 	NextListErr   error
 	NextDeleteErr error
+	// DriftedClaims: per-NodeClaim drift reported by IsDrifted (overrides Drifted)
+	DriftedClaims map[string]cloudprovider.DriftReason
 	Drifted       cloudprovider.DriftReason
 	Repair        []cloudprovider.RepairPolicy
 	// Fault hook: called before every provider call; a non-nil return fails the call
@@ -371,8 +373,27 @@ func (p *Provider) CallsSnapshot() []ProviderCall {
 	return append([]ProviderCall(nil), p.Calls...)
 }
 
-func (p *Provider) IsDrifted(context.Context, *v1.NodeClaim) (cloudprovider.DriftReason, error) {
+func (p *Provider) IsDrifted(_ context.Context, nc *v1.NodeClaim) (cloudprovider.DriftReason, error) {
+	p.mu.Lock()
+	defer p.mu.Unlock()
+	if r, ok := p.DriftedClaims[nc.Name]; ok {
+		return r, nil
+	}
 	return p.Drifted, nil
+}
+
+// SetDrifted makes the provider report drift for one NodeClaim ("" clears it).
+func (p *Provider) SetDrifted(name string, reason cloudprovider.DriftReason) {
+	p.mu.Lock()
+	defer p.mu.Unlock()
+	if p.DriftedClaims == nil {
+		p.DriftedClaims = map[string]cloudprovider.DriftReason{}
+	}
+	if reason == "" {
+		delete(p.DriftedClaims, name)
+		return
+	}
+	p.DriftedClaims[name] = reason
 }
 func (p *Provider) RepairPolicies() []cloudprovider.RepairPolicy { return p.Repair }
 func (p *Provider) Name() string                                  { return "sim" }
